@@ -429,6 +429,22 @@ func (l *queue) Advance() error {
 	return nil
 }
 
+// TrimExhausted drops the head segment if it has no block left and a newer
+// segment exists. Unlike Advance it never moves past a block, so a block
+// appended since the caller saw io.EOF from Current stays the current one.
+func (l *queue) TrimExhausted() error {
+	l.mu.Lock()
+	defer l.mu.Unlock()
+	if l.head == nil {
+		return ErrNotOpen
+	}
+
+	if l.head.empty() {
+		return l.trimHead()
+	}
+	return nil
+}
+
 func (l *queue) trimHead() error {
 	if len(l.segments) > 1 {
 		l.segments = l.segments[1:]
